@@ -79,7 +79,7 @@ func (g *genCtx) fileName(dialect int, used map[string]bool, o attOpts) string {
 }
 
 var hostileNames = []string{"../x", "../../etc/cron.d/x", "/abs/path", "/etc/passwd", "a/../../b", "..", ".", "a/b", "sub/dir/file", "./../victim", "x/", "/", "....//....//x",
-	"..\\x", "a\x00b", "%2e%2e/x", "../OTHER/file.bin", "../file.log", "../../outside.txt"}
+	"..\\x", "a\x00b", "\x00../x", "\x00\x00../victim", "\x00/abs/path", "../x\x00", "\x00../OTHER/file.bin", "%2e%2e/x", "../OTHER/file.bin", "../file.log", "../../outside.txt"}
 
 // genUpload builds one attachment session for connection ci.
 func (g *genCtx) genUpload(ci int, o attOpts) {
